@@ -149,6 +149,11 @@ func globEngine(raw json.RawMessage, args []string) (any, error) {
 	lr := language(pat, mode, subjects, extra)
 	res := map[string]any{"err": lr.Err, "errkind": lr.ErrKind, "rx": lr.Rx, "compile_err": lr.CompileErr,
 		"acc": lr.Acc, "xacc": lr.XAcc}
+	if v.Subj == "unanch" && lr.Err == "" && lr.CompileErr == "" {
+		// the same pattern without EntireString: the expression is used to search
+		sr := language(pat, mode&^pattern.EntireString, subjects, nil)
+		res["s_err"], res["s_compile_err"], res["s_rx"], res["s_acc"] = sr.Err, sr.CompileErr, sr.Rx, sr.Acc
+	}
 	if v.Meta {
 		res["hasmeta"] = pattern.HasMeta(pat, mode)
 		q := pattern.QuoteMeta(pat, mode)
